@@ -52,17 +52,48 @@ structure Mid (N : Nat) (d : Cfg) (mid : Nat) (rp : Option Nat) : Prop where
 
 
 theorem JInv.congr {c d : Cfg} (h : JInv c) (h1 : evK d = evK c) (h2 : d.joins = c.joins) (h3 : d.sent = c.sent)
-    (ht : ∀ x ∈ heldE c.joins, x ∉ d.timers ∧ x ∉ d.pending) : JInv d := by
+    (ht : ∀ x ∈ heldE c.joins, x ∉ d.timers ∧ x ∉ d.pending) (ho : ∀ x ∈ heldR c.joins, x ∉ d.orphans) : JInv d := by
   constructor
   · rw [h2]; exact h.one
   · rw [h2]; exact h.alive
   · rw [h1, h2]; exact h.mine
   · rw [h2]; exact h.fnd
   · rw [h2]; exact h.fheld
-  · rw [h1, h2]; exact h.held
+  · rw [h1, h2, h3]; exact h.held
   · rw [h2, h3]; exact h.heldsent
   · rw [h2]; exact h.rpheld
   · rw [h2]; exact ht
+  · rw [h2]; exact ho
+
+theorem mem_heldE {js : List Join} {j : Join} {q : Nat × Nat} (hj : j ∈ js) (hq : q ∈ j.heldEv) : q.2 ∈ heldE js := by
+  simp only [heldE, List.mem_flatMap]
+  exact ⟨j, hj, List.mem_map.mpr ⟨q, hq, rfl⟩⟩
+
+/-- one event of the queue (not a held one) is replaced by another with the same Branch stack -/
+theorem JInv.replace {c d : Cfg} (h : JInv c) {x y : Nat × EvKind} (hx : x ∈ evK c)
+    (hmem : ∀ p, p ∈ evK d ↔ (p ∈ evK c ∧ p ≠ x) ∨ p = y) (hstk : evStack y.2 = evStack x.2)
+    (hj : d.joins = c.joins) (hs : d.sent = c.sent) (hxh : x.1 ∉ heldE c.joins)
+    (ht : ∀ z ∈ heldE c.joins, z ∉ d.timers ∧ z ∉ d.pending) (ho : ∀ z ∈ heldR c.joins, z ∉ d.orphans) : JInv d := by
+  constructor
+  · rw [hj]; exact h.one
+  · rw [hj]; exact h.alive
+  · rw [hj]; intro j hjm p hp f hf
+    rcases (hmem p).mp hp with ⟨hpc, _⟩ | rfl
+    · exact h.mine j hjm p hpc f hf
+    · exact h.mine j hjm x hx f (hstk ▸ hf)
+  · rw [hj]; exact h.fnd
+  · rw [hj]; exact h.fheld
+  · rw [hj]; intro j hjm q hq
+    obtain ⟨hq1, p, hp, hp1, hp2, hp3, hp4⟩ := h.held j hjm q hq
+    refine ⟨hq1, p, (hmem p).mpr (Or.inl ⟨hp, ?_⟩), hp1, hp2, hp3, hs ▸ hp4⟩
+    intro hpx
+    apply hxh
+    rw [← hpx, hp1]
+    exact mem_heldE hjm hq
+  · rw [hj, hs]; exact h.heldsent
+  · rw [hj]; exact h.rpheld
+  · rw [hj]; exact ht
+  · rw [hj]; exact ho
 
 theorem evK_split (l1 l2 : List QEv) (m : QEv) :
     (l1 ++ m :: l2).map (fun e => (e.id, e.kind)) = l1.map (fun e => (e.id, e.kind)) ++ (m.id, m.kind) :: l2.map (fun e => (e.id, e.kind)) := by
@@ -94,7 +125,7 @@ theorem mid_ev {N : Nat} {c : Cfg} (h : PInv N c) {l1 l2 : List QEv} {m m' : QEv
   have hht := h.join.ht
   rw [he] at t_sub p_sub he_sub u_ev t_kind p_kind
   refine ⟨⟨h.dur.congr hevk rfl rfl rfl rfl rfl, ?_, h.shape.congr hevk (fun x => x) rfl,
-    h.join.congr hevk rfl rfl h.join.ht, h.cons.congr hevk rfl rfl rfl, ?_, fun _ hh => (by cases hh), fun _ => hns⟩, ?_⟩
+    h.join.congr hevk rfl rfl h.join.ht h.join.hro, h.cons.congr hevk rfl rfl rfl, ?_, fun _ hh => (by cases hh), fun _ => hns⟩, ?_⟩
   · volh_grind
   · simp [uEv_cons, hu', hid']
   · simp only [mu2, evW, he, List.map_append, List.map_cons, List.sum_append, List.sum_cons, hu, hu', hk', hid',
@@ -121,7 +152,7 @@ theorem mid_tm {N : Nat} {c : Cfg} (h : PInv N c) {l1 l2 : List QEv} {m : QEv} (
   have hnde := tnd.erase m.id
   have hlen := length_erase_mem hc
   refine ⟨⟨h.dur.congr rfl rfl rfl rfl rfl rfl, ?_, h.shape.congr rfl (fun x => x) rfl,
-    h.join.congr rfl rfl rfl (fun x hx => ⟨fun hh => (hht x hx).1 ((hte x).mp hh).2, (hht x hx).2⟩),
+    h.join.congr rfl rfl rfl (fun x hx => ⟨fun hh => (hht x hx).1 ((hte x).mp hh).2, (hht x hx).2⟩) h.join.hro,
     h.cons.congr rfl rfl rfl rfl, ?_, fun _ hh => (by cases hh), fun _ => hns⟩, ?_⟩
   · constructor <;>
       simp only [Option.some.injEq, reduceCtorEq, false_implies, implies_true] at * <;>
@@ -153,7 +184,7 @@ theorem mid_rp {N : Nat} {c : Cfg} (h : PInv N c) {l1 l2 : List QEv} {m : QEv} (
   have hrpc : rpC { c with rpq := k1 ++ r' :: k2, pending := c.pending.erase m.id } = rpC c := by
     simp [rpC, hr, hr'c]
   refine ⟨⟨h.dur.congr rfl hrpc rfl rfl rfl rfl, ?_, h.shape.congr rfl (fun x => x) rfl,
-    h.join.congr rfl rfl rfl (fun x hx => ⟨(hht x hx).1, fun hh => (hht x hx).2 ((hpe x).mp hh).2⟩),
+    h.join.congr rfl rfl rfl (fun x hx => ⟨(hht x hx).1, fun hh => (hht x hx).2 ((hpe x).mp hh).2⟩) h.join.hro,
     h.cons.congr rfl hrpc rfl rfl, ?_, ?_, fun hh => (by cases hh)⟩, ?_⟩
   · rw [hr] at o_sub hr_sub u_rp
     have hine : m.id ∈ uEv c.evq := mem_uEv.mpr ⟨m, hm, hu, rfl⟩
@@ -202,7 +233,8 @@ theorem mid_tick {N : Nat} {c : Cfg} (h : PInv N c) {m : QEv} (hm : m ∈ c.evq)
       exact ⟨j, hj1, List.mem_map.mpr ⟨q, hq, hq2⟩⟩
     exact (hht _ this).2 hp
   refine ⟨⟨h.dur.congr rfl rfl rfl rfl rfl rfl, ?_, h.shape.congr rfl (fun x => x) rfl,
-    h.join.congr rfl rfl rfl (fun x hx => ⟨(hht x hx).1, fun hh => (hht x hx).2 ((hpe x).mp hh).2⟩),
+    h.join.congr rfl rfl rfl (fun x hx => ⟨(hht x hx).1, fun hh => (hht x hx).2 ((hpe x).mp hh).2⟩)
+      (fun x hx hh => h.join.hro x hx ((hoe x).mp hh).2),
     h.cons.congr rfl rfl rfl rfl, hine, ?_, fun hh => (by cases hh)⟩, ?_⟩
   · constructor <;>
       simp only [Option.some.injEq, reduceCtorEq, false_implies, implies_true] at * <;>
